@@ -526,11 +526,41 @@ func c11FixedProtocols(c *Ctx) {
 		n++
 		gname := g.String()
 		okAll := true
+		nSucc := 0
+		// 'return codec.readFrom(r)': the decoding routine shared by the fixed-encoding protocols is judged in their
+		// place — it succeeds only after comparing everything it read (with whatever canonical bytes it is given)
+		for _, b := range rf.SSA.Blocks {
+			ret, isRet := b.Instrs[len(b.Instrs)-1].(*ssa.Return)
+			if !isRet || len(ret.Results) != 2 {
+				continue
+			}
+			h0, _ := helperCall(c.RetX(ret, 1))
+			if h0 == nil || h0.Callee == nil || c.RetX(ret, 1).Op == "nil" {
+				continue
+			}
+			for _, hb := range h0.Callee.Blocks {
+				hret, ok := hb.Instrs[len(hb.Instrs)-1].(*ssa.Return)
+				if !ok || len(hret.Results) != 2 || c.RetX(hret, 1).Op != "nil" {
+					continue
+				}
+				nSucc++
+				eq := false
+				for _, fct := range c.FactsAt(hb) {
+					if fct.Val && fct.Cond.Op == "call" && nameMatches(fct.Cond.Name, "bytes.Equal") && fct.Cond.Contains(func(y *X) bool { return y.Op == "makeslice" }) {
+						eq = true
+					}
+				}
+				if !eq {
+					okAll = false
+				}
+			}
+		}
 		for _, b := range rf.SSA.Blocks {
 			ret, isRet := b.Instrs[len(b.Instrs)-1].(*ssa.Return)
 			if !isRet || len(ret.Results) != 2 || c.RetX(ret, 1).Op != "nil" {
 				continue
 			}
+			nSucc++
 			eq := false
 			for _, fct := range c.FactsAt(b) {
 				if fct.Val && fct.Cond.Op == "call" && nameMatches(fct.Cond.Name, "bytes.Equal") && fct.Cond.Contains(func(y *X) bool { return y.Op == "global" && strings.Contains(gname, y.Name) }) {
@@ -541,7 +571,7 @@ func c11FixedProtocols(c *Ctx) {
 				okAll = false
 			}
 		}
-		c.Check(okAll, "C11.M9-fixed-encoding-decoded-exactly", rf.Name+" › accepts exactly its own encoding", rf.SSA.Pos(), "success dominated by bytes.Equal("+gname+", bytes read)", "the decoder of a fixed-encoding protocol succeeds without having compared all the bytes it consumed with its canonical encoding ("+gname+"): input with a different payload-length byte is accepted and re-encodes to other bytes than were consumed")
+		c.Check(okAll && nSucc > 0, "C11.M9-fixed-encoding-decoded-exactly", rf.Name+" › accepts exactly its own encoding", rf.SSA.Pos(), "success dominated by bytes.Equal("+gname+", bytes read)", "the decoder of a fixed-encoding protocol succeeds without having compared all the bytes it consumed with its canonical encoding ("+gname+"): input with a different payload-length byte is accepted and re-encodes to other bytes than were consumed")
 	}
 	c.Floor("C11.M9-fixed-encoding-decoded-exactly", 2)
 }
